@@ -686,6 +686,55 @@ def writeLmtpStatuses (s : S) (sts : List (Bytes × BRes)) : S :=
     let (code, enh, msg) := dataStatus r
     replyB s code enh ["<".b ++ a ++ "> ".b ++ msg]) s
 
+def setW (s : S) (w : W) : S := { s with w := w }
+
+/-- what follows the backend's return in plain SMTP: one final reply, then the transaction is reset -/
+def dataFinishSmtp (s : S) (k : Nat) (r1 : DataReader.DR) (octets : Bytes) (e : RdEnd) (dec : DataDec) : S × Bool :=
+  let ret := resolveRet dec.ret e
+  let s := setDrec s k (fun d => { d with octets := octets, rdEnd := e, ret := ret, finished := true })
+  if ret == .panic then (resetConn s, true)     -- deferred reset runs, then handle recovers
+  else
+    let (code, enh, msg) := dataStatus ret
+    let s := setW s (drain (wireFuel s.w) r1 s.w)
+    (resetConn (replyB s code enh [msg]), false)
+
+/-- LMTP with a plain backend: one status for every recipient -/
+def dataFinishLmtpPlain (s : S) (k : Nat) (r1 : DataReader.DR) (octets : Bytes) (e : RdEnd) (dec : DataDec) : S × Bool :=
+  let ret := resolveRet dec.ret e
+  let s := setDrec s k (fun d => { d with octets := octets, rdEnd := e, ret := ret, finished := true })
+  if ret == .panic then (resetConn s, true)
+  else
+    let s := setW s (drain (wireFuel s.w) r1 s.w)
+    let s := writeLmtpStatuses s (s.c.recipients.map (fun a => (a, ret)))
+    (resetConn s, false)
+
+/-- LMTPSession: statuses set by the backend, the rest filled with its return value -/
+def dataFinishLmtpSess (s : S) (k : Nat) (r1 : DataReader.DR) (octets : Bytes) (e : RdEnd) (dec : DataDec) : S × Bool :=
+  let (q, okCalls) := applyStatuses s.c.recipients dec.statuses []
+  let ret := if okCalls then resolveRet dec.ret e else .panic
+  let s := setDrec s k (fun d => { d with octets := octets, rdEnd := e, ret := ret, finished := true })
+  if ret == .panic then
+    -- recovered in the delivery goroutine: 421 for whoever has no status, log, close
+    let s := emit s .panicLog
+    let s := writeLmtpStatuses s (collect s.c.recipients q errPanic)
+    (resetConn (closeConn s), false)
+  else
+    let s := setW s (drain (wireFuel s.w) r1 s.w)
+    let s := writeLmtpStatuses s (collect s.c.recipients q ret)
+    (resetConn s, false)
+
+/-- the synchronous `Session.Data` / `LMTPData` call of the DATA command -/
+def dataSync (s : S) (id : Nat) : S × Bool :=
+  let (dec, s) := popData s
+  let (s, k) := beginData s id dec
+  let s := emit s (.dataBegin id k)
+  let r0 := newDataReader s
+  let (r1, w1, octets, e) := backendRead (wireFuel s.w) r0 s.w dec.want dec.rsz []
+  let s := setW s w1
+  if !s.cfg.lmtp then dataFinishSmtp s k r1 octets e dec
+  else if !s.cfg.lmtpSess then dataFinishLmtpPlain s k r1 octets e dec
+  else dataFinishLmtpSess s k r1 octets e dec
+
 /-- returns the state and whether a panic escapes to `handle` -/
 def handleData (s : S) (arg : Bytes) : S × Bool :=
   if !arg.isEmpty then (reply s 501 ⟨5, 5, 4⟩ "DATA command should not have any arguments", false)
@@ -696,44 +745,7 @@ def handleData (s : S) (arg : Bytes) : S × Bool :=
     let s := reply s 354 noEnh "Go ahead. End your data with <CR><LF>.<CR><LF>"
     match s.c.session with
     | none => (resetConn s, true)
-    | some id =>
-      let (dec, s) := popData s
-      let (s, k) := beginData s id dec
-      let s := emit s (.dataBegin id k)
-      let r0 := newDataReader s
-      let (r1, w1, octets, e) := backendRead (wireFuel s.w) r0 s.w dec.want dec.rsz []
-      let s := { s with w := w1 }
-      if !s.cfg.lmtp then
-        let ret := resolveRet dec.ret e
-        let s := setDrec s k (fun d => { d with octets := octets, rdEnd := e, ret := ret, finished := true })
-        if ret == .panic then (resetConn s, true)     -- deferred reset runs, then handle recovers
-        else
-          let (code, enh, msg) := dataStatus ret
-          let s := { s with w := drain (wireFuel s.w) r1 s.w }
-          (resetConn (replyB s code enh [msg]), false)
-      else if !s.cfg.lmtpSess then
-        -- fallback: one status for every recipient
-        let ret := resolveRet dec.ret e
-        let s := setDrec s k (fun d => { d with octets := octets, rdEnd := e, ret := ret, finished := true })
-        if ret == .panic then (resetConn s, true)
-        else
-          let s := { s with w := drain (wireFuel s.w) r1 s.w }
-          let s := writeLmtpStatuses s (s.c.recipients.map (fun a => (a, ret)))
-          (resetConn s, false)
-      else
-        -- LMTPSession: statuses set by the backend, the rest filled with its return value
-        let (q, okCalls) := applyStatuses s.c.recipients dec.statuses []
-        let ret := if okCalls then resolveRet dec.ret e else .panic
-        let s := setDrec s k (fun d => { d with octets := octets, rdEnd := e, ret := ret, finished := true })
-        if ret == .panic then
-          -- recovered in the delivery goroutine: 421 for whoever has no status, log, close
-          let s := emit s .panicLog
-          let s := writeLmtpStatuses s (collect s.c.recipients q errPanic)
-          (resetConn (closeConn s), false)
-        else
-          let s := { s with w := drain (wireFuel s.w) r1 s.w }
-          let s := writeLmtpStatuses s (collect s.c.recipients q ret)
-          (resetConn s, false)
+    | some id => dataSync s id
 
 /-! ### BDAT -/
 
@@ -777,88 +789,109 @@ def copyChunk : Nat → S → Nat → Nat → Nat → S × Nat × CopyEnd
         if okAll then copyChunk fuel s1 k (n - bs.length) cap
         else (s1, n - bs.length, .pipeErr)
 
+def setLimit (s : S) (n : Nat) : S := setW s { s.w with limit := n }
+
+/-- skip the payload of a refused BDAT command (`discardChunk`), the line limit lifted meanwhile -/
+def discardChunkN (s : S) (size? : Option Nat) : S :=
+  match size? with
+  | some n => setW s { (discardN (wireFuel s.w) { s.w with limit := 0 } n) with limit := s.cfg.maxLine }
+  | none => s
+
+def setBdatStatus (s : S) : S :=
+  if s.c.bdatStatus.isNone && s.cfg.lmtp then { s with c := { s.c with bdatStatus := some s.c.recipients } } else s
+
+/-- the first chunk of a transfer starts the delivery goroutine; later chunks find it running -/
+def bdatBegin (s : S) : S × Nat :=
+  match s.c.bdat with
+  | some k => (s, k)
+  | none =>
+    let (dec, s) := popData s
+    let (s, k) := beginData s (s.c.session.getD 0) dec
+    let s := emit s (.dataBegin (s.c.session.getD 0) k)
+    let s := { s with c := { s.c with bdat := some k } }
+    -- a backend that wants nothing returns at once
+    let s := if dec.want == some 0 then delivFinish s k .none else s
+    (s, k)
+
+/-- a chunk could not be copied: skip what is left of it, report, end the transaction -/
+def bdatFail (s : S) (left : Nat) (err : BRes) : S × Bool :=
+  let s := setW s (discardN (wireFuel s.w) s.w left)
+  let (code, enh, msg) := dataStatus err
+  let s := replyB s code enh [msg]
+  let s := if err == errPanic then closeConn s else s
+  let s := resetConn s
+  (setLimit s s.cfg.maxLine, false)
+
+/-- the LAST chunk has been copied: `bdatPipe.Close()`, the verdict(s), the end of the transaction -/
+def bdatFinal (s : S) (k : Nat) : S × Bool :=
+  let s := if delivRunning s k then delivFinish s k .eof else s
+  let r := delivRet s k
+  let rcpts := s.c.recipients
+  let isPanic := r == .panic
+  let res := if isPanic then errPanic else r
+  let s :=
+    if s.cfg.lmtp then
+      if !s.cfg.lmtpSess then writeLmtpStatuses s (rcpts.map (fun a => (a, res)))
+      else
+        let (q, okCalls) := applyStatuses ((s.c.bdatStatus).getD rcpts) (delivDec s k).statuses []
+        if okCalls && !isPanic then writeLmtpStatuses s (collect rcpts q res)
+        else writeLmtpStatuses s (collect rcpts q errPanic)
+    else
+      let (code, enh, msg) := dataStatus res
+      replyB s code enh [msg]
+  if isPanic then (closeConn s, false) else (resetConn s, false)
+
+def addBytesReceived (s : S) (n : Nat) : S := { s with c := { s.c with bytesReceived := s.c.bytesReceived + n } }
+
+/-- a chunk has been copied completely -/
+def bdatDone (s : S) (k size : Nat) (last : Bool) : S × Bool :=
+  -- the chunk has been read: what follows is a command line again
+  let s := setLimit (addBytesReceived s size) s.cfg.maxLine
+  if !last then (reply s 250 ⟨2, 0, 0⟩ "Continue", false)
+  else bdatFinal s k
+
+/-- what follows the copy of a chunk, by the way it ended -/
+def bdatAfterCopy (s : S) (k size left : Nat) (last : Bool) (ce : CopyEnd) : S × Bool :=
+  match ce with
+  | .short => bdatFail s left (.er "unexpected EOF".b)
+  | .srcErr e => bdatFail s left (.er (match e with
+      | .tooLong => "smtp: too long a line in input stream".b
+      | .timeout => "i/o timeout".b
+      | .closed => "use of closed network connection".b
+      | .eof => "EOF".b))
+  | .pipeErr =>
+    let r := delivRet s k
+    (if r == .panic then bdatFail s left errPanic else bdatFail s left (pipeWriteErr r))
+  | .done => bdatDone s k size last
+
+/-- an accepted BDAT command: start or continue the transfer, copy the chunk -/
+def bdatChunk (s : S) (size : Nat) (last : Bool) : S × Bool :=
+  let (s, k) := bdatBegin (setBdatStatus s)
+  let s := setLimit s 0
+  let (s, left, ce) := copyChunk (wireFuel s.w) s k size (min 32768 (max size 1))
+  bdatAfterCopy s k size left last ce
+
 def handleBdat (s : S) (arg : Bytes) : S × Bool :=
   match fields arg with
   | [] => (reply s 501 ⟨5, 5, 4⟩ "Missing chunk size argument", false)
   | a0 :: more =>
     let size? := parseUintDec a0 32
-    let discardChunk (s : S) : S :=
-      match size? with
-      | some n =>
-        let w := discardN (wireFuel s.w) { s.w with limit := 0 } n
-        { s with w := { w with limit := s.cfg.maxLine } }
-      | none => s
-    if more.length > 1 then (discardChunk (reply s 501 ⟨5, 5, 4⟩ "Too many arguments"), false)
+    if more.length > 1 then (discardChunkN (reply s 501 ⟨5, 5, 4⟩ "Too many arguments") size?, false)
     else if !s.c.fromReceived || s.c.recipients.isEmpty then
-      (discardChunk (reply s 502 ⟨5, 5, 1⟩ "Missing RCPT TO command."), false)
+      (discardChunkN (reply s 502 ⟨5, 5, 1⟩ "Missing RCPT TO command.") size?, false)
     else
       let lastBad := match more with
         | [t] => !equalFold t "LAST".b
         | _ => false
-      if lastBad then (discardChunk (reply s 501 ⟨5, 5, 4⟩ "Unknown BDAT argument"), false)
+      if lastBad then (discardChunkN (reply s 501 ⟨5, 5, 4⟩ "Unknown BDAT argument") size?, false)
       else
         let last := more.length == 1
         match size? with
         | none => (reply s 501 ⟨5, 5, 4⟩ "Malformed size argument", false)
         | some size =>
           if s.cfg.maxMsg != 0 && s.c.bytesReceived + size > s.cfg.maxMsg then
-            (resetConn (discardChunk (reply s 552 ⟨5, 3, 4⟩ "Max message size exceeded")), false)
-          else
-            let s := if s.c.bdatStatus.isNone && s.cfg.lmtp then
-                { s with c := { s.c with bdatStatus := some s.c.recipients } } else s
-            -- the first chunk of a transfer starts the delivery goroutine
-            let (s, k) : S × Nat := match s.c.bdat with
-              | some k => (s, k)
-              | none =>
-                let (dec, s) := popData s
-                let (s, k) := beginData s (s.c.session.getD 0) dec
-                let s := emit s (.dataBegin (s.c.session.getD 0) k)
-                let s := { s with c := { s.c with bdat := some k } }
-                -- a backend that wants nothing returns at once
-                let s := if dec.want == some 0 then delivFinish s k .none else s
-                (s, k)
-            let s := { s with w := { s.w with limit := 0 } }
-            let (s, left, ce) := copyChunk (wireFuel s.w) s k size (min 32768 (max size 1))
-            let fail (s : S) (err : BRes) : S × Bool :=
-              let s := { s with w := discardN (wireFuel s.w) s.w left }
-              let (code, enh, msg) := dataStatus err
-              let s := replyB s code enh [msg]
-              let s := if err == errPanic then closeConn s else s
-              let s := resetConn s
-              ({ s with w := { s.w with limit := s.cfg.maxLine } }, false)
-            match ce with
-            | .short => fail s (.er "unexpected EOF".b)
-            | .srcErr e => fail s (.er (match e with
-                | .tooLong => "smtp: too long a line in input stream".b
-                | .timeout => "i/o timeout".b
-                | .closed => "use of closed network connection".b
-                | .eof => "EOF".b))
-            | .pipeErr =>
-              let r := delivRet s k
-              (if r == .panic then fail s errPanic else fail s (pipeWriteErr r))
-            | .done =>
-              let s := { s with c := { s.c with bytesReceived := s.c.bytesReceived + size } }
-              -- the chunk has been read: what follows is a command line again
-              let s := { s with w := { s.w with limit := s.cfg.maxLine } }
-              if !last then (reply s 250 ⟨2, 0, 0⟩ "Continue", false)
-              else
-                -- bdatPipe.Close(): the backend's reader sees EOF
-                let s := if delivRunning s k then delivFinish s k .eof else s
-                let r := delivRet s k
-                let rcpts := s.c.recipients
-                let isPanic := r == .panic
-                let res := if isPanic then errPanic else r
-                let s :=
-                  if s.cfg.lmtp then
-                    if !s.cfg.lmtpSess then writeLmtpStatuses s (rcpts.map (fun a => (a, res)))
-                    else
-                      let (q, okCalls) := applyStatuses ((s.c.bdatStatus).getD rcpts) (delivDec s k).statuses []
-                      if okCalls && !isPanic then writeLmtpStatuses s (collect rcpts q res)
-                      else writeLmtpStatuses s (collect rcpts q errPanic)
-                  else
-                    let (code, enh, msg) := dataStatus res
-                    replyB s code enh [msg]
-                if isPanic then (closeConn s, false) else (resetConn s, false)
+            (resetConn (discardChunkN (reply s 552 ⟨5, 3, 4⟩ "Max message size exceeded") size?), false)
+          else bdatChunk s size last
 
 /-! ### dispatch (`Conn.handle`) and the command loop (`Server.handleConn`) -/
 
